@@ -10,10 +10,10 @@ Summary of what is proved (entry point × outcome):
 | entry | outcome | frames / base / min_frame_registers / placeholders | registers | builders |
 |---|---|---|---|---|
 | pushes a barrier frame (`run`, `call_and_run_function` on a Koto callee, `run_*_op` on a Koto overload, each test of `run_tests`, `run` inside `run_import`) | ok, thrown, runtime error, failed type check, failed test, timeout, error in a nested entry, … (every event list) | restored (`entry_clean_frames`) | no residue (`entry_no_register_residue`) | restored iff no error unwinds through a builder opened inside (`raise_keeps_builders`, negations `run_builders_not_clean_*`) |
-| native callee | returns Ok | restored (`entry_native_frames`) | restored (`call_native_ok_clean`) | – |
-| native callee | returns Err | restored | **residue `pre + 1 + args`** (`call_native_err_residue`, negation `call_native_err_not_clean`) | – |
-| `call_callable` fails (argument count, …) | – | restored | **residue** (`call_setup_fail_residue`) | – |
-| `run_*_op` performed natively | Ok / Err | restored | restored / **residue `pre`** (`op_direct_ok_clean`, `op_direct_err_residue`) | – |
+| `call_and_run_function`, native callee | returns Ok / Err | restored (`entry_native_frames`) | restored (`call_native_ok_clean`, `call_native_err_clean` — since fix 5247d9c) | – |
+| `call_and_run_function`, `call_callable` fails (argument count, …) | – | restored | restored (`call_setup_fail_clean` — since fix 5247d9c) | – |
+| `run_*_op` through `call_overridden_op_N`, native overload returns Err / `call_callable` fails | – | restored | **residue `pre + 1 + args`** (`opcall_native_err_residue`, `opcall_setup_fail_residue`; F-C07-3) | – |
+| `run_*_op` performed natively | Ok / Err | restored | restored / **residue `pre`** (`op_direct_ok_clean`, `op_direct_err_residue`; F-C07-3) | – |
 | compile error | never enters the VM (no event) | – | – | – |
 -/
 import KotoVerif.Model.Unwind
@@ -56,11 +56,11 @@ theorem entry_clean_frames (s : St) (pre args a : Nat) (evs : List Ev)
   let e : Cont := .loop (.truncate (nextRegister s.vm))
   have h0 : Inv s e (enter pre args (.koto a) s) [e] := by
     refine ⟨?_, ?_, ?_, ?_, ?_, ?_, ?_⟩
-    · simp [enter, e]
-    · simp [enter, callKoto, pushFrame, peelAll, dropLoop, e]
-    · simp [enter, callKoto, pushFrame, topBase]
+    · simp [enter, enterWith, e]
+    · simp [enter, enterWith, callKoto, pushFrame, peelAll, dropLoop, e]
+    · simp [enter, enterWith, callKoto, pushFrame, topBase]
     · intro hl; simp [hasLoop, e] at hl
-    · simp [enter, callKoto, pushFrame, impMods, e]
+    · simp [enter, enterWith, callKoto, pushFrame, impMods, e]
     · intro _; rfl
     · intro hn; simp at hn
   obtain ⟨Y', h'⟩ := runUntil_inv s e hhost hc evs _ [e] h0
@@ -118,35 +118,44 @@ theorem entry_native_frames (s : St) (pre args : Nat) (evs : List Ev)
     let s' := runEntry pre args .native evs s
     CleanFrames s.vm s'.vm ∧ s'.conts = s.conts := by
   intro s'
-  let e : Cont := .native (nextRegister { s.vm with regs := s.vm.regs + pre }) (some (nextRegister s.vm))
+  let e : Cont := .native (nextRegister { s.vm with regs := s.vm.regs + pre }) (some (nextRegister s.vm, true))
   have h0 : Inv s e (enter pre args .native s) [e] := by
     refine ⟨?_, ?_, ?_, ?_, ?_, ?_, ?_⟩
-    · simp [enter, e]
-    · simp [enter, peelAll, e]
-    · simp [enter, hc.base]
-    · intro _; simp [enter]
-    · simp [enter, impMods, e]
+    · simp [enter, enterWith, e]
+    · simp [enter, enterWith, peelAll, e]
+    · simp [enter, enterWith, hc.base]
+    · intro _; simp [enter, enterWith]
+    · simp [enter, enterWith, impMods, e]
     · intro _; rfl
     · intro hn; simp at hn
   obtain ⟨Y', h'⟩ := runUntil_inv s e hhost hc evs _ [e] h0
   have := inv_exit s e hc _ Y' h' hex
   exact ⟨⟨this.2.1, this.2.2.1, this.2.2.2.1, this.2.2.2.2.1⟩, this.1⟩
 
-/-! ## F-C07-1: entries that return early leave registers behind -/
+/-! ## `call_and_run_function` on a callee that fails before a frame is pushed
+(F-C07-1, repaired by fix 5247d9c: `truncate_registers(result_register)` before the error is
+propagated) — and the same early return in `run_*_op`, which is still there (F-C07-3) -/
 
-/-- `call_and_run_function` (and `run_*_op` via `call_overridden_op_N`) on a native callee that
-returns `Err`: the early `?` leaves exactly `pre + 1 + args` registers; nothing else changes. -/
-theorem call_native_err_residue (s : St) (pre args : Nat) (evs : List Ev) (hhost : inLoop s = false) :
-    let s' := runEntry pre args .native (.nativeRet false :: evs) s
-    s'.vm.regs = s.vm.regs + pre + 1 + args ∧ s'.conts = s.conts ∧ s'.vm.stack = s.vm.stack ∧
-    s'.vm.base = s.vm.base ∧ s'.vm.seq = s.vm.seq ∧ s'.vm.str = s.vm.str := by
+theorem runUntil_host (d : Nat) (evs : List Ev) (st : St) (h : st.conts.length ≤ d) :
+    runUntil d evs st = st := by
+  cases evs <;> simp [runUntil, h]
+
+/-- `call_and_run_function` on a native callee that returns `Err` is clean. -/
+theorem call_native_err_clean (s : St) (pre args : Nat) (evs : List Ev) (hhost : inLoop s = false)
+    (hc : Consistent s.vm) (hw : s.vm.regs - s.vm.base < 256) :
+    Clean s.vm (runEntry pre args .native (.nativeRet false :: evs) s).vm ∧
+    (runEntry pre args .native (.nativeRet false :: evs) s).conts = s.conts := by
   have hstep : step (.nativeRet false) (enter pre args .native s) =
-      ⟨{ s.vm with regs := s.vm.regs + pre + 1 + args }, s.conts⟩ := by
-    simp [step, inLoop, enter, raiseGo_host s hhost]
+      ⟨truncate (nextRegister s.vm) { s.vm with regs := s.vm.regs + pre + 1 + args }, s.conts⟩ := by
+    simp [step, inLoop, enter, enterWith, raiseGo_host s hhost]
   simp only [runEntry, runUntil]
-  have h1 : ¬ (enter pre args .native s).conts.length ≤ s.conts.length := by simp [enter]
-  rw [if_neg h1, hstep]
-  cases evs <;> simp [runUntil]
+  have h1 : ¬ (enter pre args .native s).conts.length ≤ s.conts.length := by
+    simp [enter, enterWith]
+  rw [if_neg h1, hstep, runUntil_host _ _ _ (by simp)]
+  have hr := hc.regs
+  have hw1 : (s.vm.regs - s.vm.base) % 256 = s.vm.regs - s.vm.base := Nat.mod_eq_of_lt hw
+  simp [Clean, truncate, nextRegister, hw1]
+  omega
 
 /-- The same entry when the native callee returns `Ok` is clean. -/
 theorem call_native_ok_clean (s : St) (pre args : Nat) (evs : List Ev)
@@ -156,14 +165,12 @@ theorem call_native_ok_clean (s : St) (pre args : Nat) (evs : List Ev)
       ⟨truncate (nextRegister s.vm)
         (nativeOk (nextRegister { s.vm with regs := s.vm.regs + pre })
           { s.vm with regs := s.vm.regs + pre + 1 + args }), s.conts⟩ := by
-    simp [step, inLoop, enter]
+    simp [step, inLoop, enter, enterWith]
   simp only [runEntry, runUntil]
-  have h1 : ¬ (enter pre args .native s).conts.length ≤ s.conts.length := by simp [enter]
-  rw [if_neg h1, hstep]
+  have h1 : ¬ (enter pre args .native s).conts.length ≤ s.conts.length := by
+    simp [enter, enterWith]
+  rw [if_neg h1, hstep, runUntil_host _ _ _ (by simp)]
   have hr := hc.regs
-  have hfin : ∀ vm : VM, (runUntil s.conts.length evs ⟨vm, s.conts⟩) = ⟨vm, s.conts⟩ := by
-    intro vm; cases evs <;> simp [runUntil]
-  rw [hfin]
   have hw1 : (s.vm.regs - s.vm.base) % 256 = s.vm.regs - s.vm.base := Nat.mod_eq_of_lt (by omega)
   have hw2 : (s.vm.regs + pre - s.vm.base) % 256 = s.vm.regs + pre - s.vm.base :=
     Nat.mod_eq_of_lt (by omega)
@@ -176,15 +183,67 @@ theorem call_native_ok_clean (s : St) (pre args : Nat) (evs : List Ev)
     omega
 
 /-- `call_callable` fails before anything runs (wrong argument count for a Koto function, `@call`
-entry that is not callable): same early return, same residue. -/
-theorem call_setup_fail_residue (s : St) (pre args : Nat) (evs : List Ev) (hhost : inLoop s = false) :
-    let s' := runEntry pre args .fail evs s
+entry that is not callable): clean as well. -/
+theorem call_setup_fail_clean (s : St) (pre args : Nat) (evs : List Ev) (hhost : inLoop s = false)
+    (hc : Consistent s.vm) (hw : s.vm.regs - s.vm.base < 256) :
+    Clean s.vm (runEntry pre args .fail evs s).vm ∧ (runEntry pre args .fail evs s).conts = s.conts := by
+  have hen : enter pre args .fail s =
+      ⟨truncate (nextRegister s.vm) { s.vm with regs := s.vm.regs + pre + 1 + args }, s.conts⟩ := by
+    simp [enter, enterWith, raiseGo_host s hhost]
+  simp only [runEntry, hen]
+  rw [runUntil_host _ _ _ (by simp)]
+  have hr := hc.regs
+  have hw1 : (s.vm.regs - s.vm.base) % 256 = s.vm.regs - s.vm.base := Nat.mod_eq_of_lt hw
+  simp [Clean, truncate, nextRegister, hw1]
+  omega
+
+/-- Any number of failing host-initiated calls leaves the value stack as it was (the regression
+statement for F-C07-1: before the fix the residue was `3 * n`). -/
+def failingCalls : Nat → List Ev
+  | 0 => []
+  | n + 1 => .enter 1 1 .native :: .nativeRet false :: failingCalls n
+
+theorem failing_calls_clean (n : Nat) (s : St) (hhost : inLoop s = false)
+    (hr : s.vm.base ≤ s.vm.regs) (hw : s.vm.regs - s.vm.base < 256) :
+    (run (failingCalls n) s).vm.regs = s.vm.regs ∧ (run (failingCalls n) s).conts = s.conts ∧
+    (run (failingCalls n) s).vm.base = s.vm.base ∧ (run (failingCalls n) s).vm.stack = s.vm.stack := by
+  induction n generalizing s with
+  | zero => simp [failingCalls, run]
+  | succ n ih =>
+    have h2 : step (.nativeRet false) (step (.enter 1 1 .native) s) =
+        ⟨truncate (nextRegister s.vm) { s.vm with regs := s.vm.regs + 1 + 1 + 1 }, s.conts⟩ := by
+      simp [step, inLoop, enter, enterWith, raiseGo_host s hhost]
+    have hrun : run (failingCalls (n + 1)) s =
+        run (failingCalls n) (step (.nativeRet false) (step (.enter 1 1 .native) s)) := by
+      simp [failingCalls, run]
+    rw [hrun, h2]
+    have hw1 : (s.vm.regs - s.vm.base) % 256 = s.vm.regs - s.vm.base := Nat.mod_eq_of_lt hw
+    have hregs : (truncate (nextRegister s.vm) { s.vm with regs := s.vm.regs + 1 + 1 + 1 }).regs
+        = s.vm.regs := by
+      simp [truncate, nextRegister, hw1]; omega
+    have := ih ⟨truncate (nextRegister s.vm) { s.vm with regs := s.vm.regs + 1 + 1 + 1 }, s.conts⟩
+      (by simpa [inLoop] using hhost) (by rw [hregs]; simpa [truncate] using hr)
+      (by rw [hregs]; simpa [truncate] using hw)
+    simp only [] at this
+    refine ⟨by rw [this.1, hregs], this.2.1, by rw [this.2.2.1]; simp [truncate],
+      by rw [this.2.2.2]; simp [truncate]⟩
+
+example : snapshot (run (failingCalls 20) init).vm = (0, 0, 0, 0, 0) := by decide
+
+/-- F-C07-3: `run_*_op` through `call_overridden_op_N` on a native overload that returns `Err`:
+the `?` leaves exactly `pre + 1 + args` registers. -/
+theorem opcall_native_err_residue (s : St) (pre args : Nat) (hhost : inLoop s = false) :
+    let s' := step (.nativeRet false) (step (.enterOp pre args .native) s)
     s'.vm.regs = s.vm.regs + pre + 1 + args ∧ s'.conts = s.conts ∧ s'.vm.stack = s.vm.stack ∧
     s'.vm.base = s.vm.base := by
-  have hen : enter pre args .fail s = ⟨{ s.vm with regs := s.vm.regs + pre + 1 + args }, s.conts⟩ := by
-    simp [enter, raiseGo_host s hhost]
-  simp only [runEntry, hen]
-  cases evs <;> simp [runUntil]
+  simp [step, inLoop, enterOp, enterWith, raiseGo_host s hhost]
+
+/-- … and the same when `call_callable` fails before anything runs. -/
+theorem opcall_setup_fail_residue (s : St) (pre args : Nat) (hhost : inLoop s = false) :
+    let s' := step (.enterOp pre args .fail) s
+    s'.vm.regs = s.vm.regs + pre + 1 + args ∧ s'.conts = s.conts ∧ s'.vm.stack = s.vm.stack ∧
+    s'.vm.base = s.vm.base := by
+  simp [step, enterOp, enterWith, raiseGo_host s hhost]
 
 /-- `run_unary_op` / `run_binary_op` / `run_read_op` / `run_write_op` whose operation is performed
 natively: clean when it succeeds … -/
@@ -208,64 +267,69 @@ nested loop (`call_metamap_arithmetic_op`); on `Err` the barrier frame is popped
 the `?` returns: the 3 operand registers and the overload's `NewFrame 4` registers stay. When the
 overload returns normally the same entry is clean. -/
 theorem op_arith_overload_err_residue :
-    snapshot (run [.enter 2 0 .native, .nested 1 1, .newFrame 4, .raise true, .nativeRet false] init).vm
+    snapshot (run [.enterOp 2 0 .native, .nested 1 1, .newFrame 4, .raise true, .nativeRet false] init).vm
       = (7, 0, 0, 0, 0) ∧
-    snapshot (run [.enter 2 0 .native, .nested 1 1, .newFrame 4, .ret, .nativeRet true] init).vm
+    snapshot (run [.enterOp 2 0 .native, .nested 1 1, .newFrame 4, .ret, .nativeRet true] init).vm
       = (0, 0, 0, 0, 0) := by decide
 
-/-- Negation of `entry_clean` for `call_and_run_function` on a failing native callee: concrete
-witness `call_function(number.abs, ['x'])` on a fresh runtime. -/
-theorem call_native_err_not_clean :
-    ¬ Clean init.vm (runEntry 1 1 .native [.nativeRet false] init).vm := by decide
+/-- Negation of `entry_clean` for `run_*_op` (F-C07-3): concrete witnesses on a fresh VM —
+`run_unary_op` on a native overload that fails, `call_callable` failing, and
+`run_binary_op(Add, 1, 'x')`. -/
+theorem opcall_native_err_not_clean :
+    ¬ Clean init.vm (run [.enterOp 2 0 .native, .nativeRet false] init).vm := by decide
 
-theorem call_setup_fail_not_clean :
-    ¬ Clean init.vm (runEntry 1 1 .fail [] init).vm := by decide
+theorem opcall_setup_fail_not_clean :
+    ¬ Clean init.vm (run [.enterOp 2 0 .fail] init).vm := by decide
 
 theorem op_direct_err_not_clean :
     ¬ Clean init.vm (step (.enterDirect 3 false) init).vm := by decide
 
-/-- `n` failing host-initiated calls of a one-argument native function. -/
-def failingCalls : Nat → List Ev
+/-- The witnesses that were negations before fix 5247d9c are clean now. -/
+theorem call_native_err_clean_example :
+    Clean init.vm (runEntry 1 1 .native [.nativeRet false] init).vm ∧
+    Clean init.vm (runEntry 1 1 .fail [] init).vm := by decide
+
+/-- `n` failing `run_binary_op` calls on mismatched operands. -/
+def failingOps : Nat → List Ev
   | 0 => []
-  | n + 1 => .enter 1 1 .native :: .nativeRet false :: failingCalls n
+  | n + 1 => .enterDirect 3 false :: failingOps n
 
 /-- The residue accumulates linearly … -/
-theorem failing_calls_residue (n : Nat) (s : St) (hhost : inLoop s = false) :
-    (run (failingCalls n) s).vm.regs = s.vm.regs + 3 * n ∧ (run (failingCalls n) s).conts = s.conts ∧
-    (run (failingCalls n) s).vm.base = s.vm.base ∧ (run (failingCalls n) s).vm.stack = s.vm.stack := by
+theorem failing_ops_residue (n : Nat) (s : St) (hhost : inLoop s = false) :
+    (run (failingOps n) s).vm.regs = s.vm.regs + 3 * n ∧ (run (failingOps n) s).conts = s.conts ∧
+    (run (failingOps n) s).vm.base = s.vm.base ∧ (run (failingOps n) s).vm.stack = s.vm.stack := by
   induction n generalizing s with
-  | zero => simp [failingCalls, run]
+  | zero => simp [failingOps, run]
   | succ n ih =>
-    have h2 : step (.nativeRet false) (step (.enter 1 1 .native) s) =
-        ⟨{ s.vm with regs := s.vm.regs + 1 + 1 + 1 }, s.conts⟩ := by
-      simp [step, inLoop, enter, raiseGo_host s hhost]
-    have hrun : run (failingCalls (n + 1)) s =
-        run (failingCalls n) (step (.nativeRet false) (step (.enter 1 1 .native) s)) := by
-      simp [failingCalls, run]
+    have h2 : step (.enterDirect 3 false) s = ⟨{ s.vm with regs := s.vm.regs + 3 }, s.conts⟩ := by
+      simp [step, enterDirect, raiseGo_host s hhost]
+    have hrun : run (failingOps (n + 1)) s = run (failingOps n) (step (.enterDirect 3 false) s) := by
+      simp [failingOps, run]
     rw [hrun, h2]
-    have := ih ⟨{ s.vm with regs := s.vm.regs + 1 + 1 + 1 }, s.conts⟩ (by simpa [inLoop] using hhost)
+    have := ih ⟨{ s.vm with regs := s.vm.regs + 3 }, s.conts⟩ (by simpa [inLoop] using hhost)
     simp only [] at this
     refine ⟨by rw [this.1]; omega, this.2.1, this.2.2.1, this.2.2.2⟩
 
 /-- … and after 86 of them `next_register()` (a `u8`) no longer names the top of the value stack:
 the next host-initiated call takes register 2 as its result register while 258 registers are live,
 i.e. its frame aliases live registers and its final `truncate_registers` cuts the stack to 2. This
-is how the residue of F-C07-1 turns into wrong behaviour of a later, correct call. -/
+is how early-return residue (F-C07-3; F-C07-1 before its fix) turns into wrong behaviour of a later,
+correct call. -/
 theorem residue_wraps_register_numbering :
-    (run (failingCalls 86) init).vm.regs = 258 ∧ nextRegister (run (failingCalls 86) init).vm = 2 ∧
-    (runEntry 1 1 (.koto 1) [.newFrame 3, .ret] (run (failingCalls 86) init)).vm.regs = 2 := by
-  have h := failing_calls_residue 86 init (by decide)
-  have hconts : (run (failingCalls 86) init).conts = [] := h.2.1
-  have hregs : (run (failingCalls 86) init).vm.regs = 258 := by rw [h.1]; rfl
-  have hbase : (run (failingCalls 86) init).vm.base = 0 := h.2.2.1
-  have hstack : (run (failingCalls 86) init).vm.stack = [] := h.2.2.2
+    (run (failingOps 86) init).vm.regs = 258 ∧ nextRegister (run (failingOps 86) init).vm = 2 ∧
+    (runEntry 1 1 (.koto 1) [.newFrame 3, .ret] (run (failingOps 86) init)).vm.regs = 2 := by
+  have h := failing_ops_residue 86 init (by decide)
+  have hconts : (run (failingOps 86) init).conts = [] := h.2.1
+  have hregs : (run (failingOps 86) init).vm.regs = 258 := by rw [h.1]; rfl
+  have hbase : (run (failingOps 86) init).vm.base = 0 := h.2.2.1
+  have hstack : (run (failingOps 86) init).vm.stack = [] := h.2.2.2
   refine ⟨hregs, by simp [nextRegister, hregs, hbase], ?_⟩
-  generalize run (failingCalls 86) init = st at *
+  generalize run (failingOps 86) init = st at *
   obtain ⟨vm, conts⟩ := st
   simp only [] at hconts hregs hbase hstack
   subst hconts
-  simp [runEntry, runUntil, enter, step, inLoop, callKoto, pushFrame, nextRegister, hregs, hbase,
-    hstack, modTop, popTo, truncate]
+  simp [runEntry, runUntil, enter, enterWith, step, inLoop, callKoto, pushFrame, nextRegister, hregs,
+    hbase, hstack, modTop, popTo, truncate]
 
 /-! ## F-C07-2: builders are not unwound -/
 
@@ -359,7 +423,7 @@ Koto callee on an instance without residue, for every execution *that executes n
 and every outcome. Exactly excluded: executions with `SequenceStart`/`StringStart`… events — for
 those `Clean` fails precisely when an error unwinds through a builder opened inside the bracket
 (`raise_keeps_builders` + the three witnesses above) — and the entry/outcome combinations of
-F-C07-1 (`call_native_err_residue`, `call_setup_fail_residue`, `op_direct_err_residue`). -/
+F-C07-3 (`opcall_native_err_residue`, `opcall_setup_fail_residue`, `op_direct_err_residue`). -/
 def builderFree : List Ev → Bool
   | [] => true
   | .seqStart :: _ => false
@@ -367,6 +431,21 @@ def builderFree : List Ev → Bool
   | .strStart :: _ => false
   | .strEnd :: _ => false
   | _ :: rest => builderFree rest
+
+theorem enterWith_builders (t : Bool) (pre args : Nat) (c : Callee) (st : St) :
+    (enterWith t pre args c st).vm.seq = st.vm.seq ∧ (enterWith t pre args c st).vm.str = st.vm.str := by
+  cases c with
+  | koto a => simp [enterWith, callKoto, pushFrame]
+  | native => simp [enterWith]
+  | fail =>
+    cases t with
+    | true =>
+      have := raise_keeps_builders st.conts true
+        (truncate (nextRegister st.vm) { st.vm with regs := st.vm.regs + pre + 1 + args })
+      exact ⟨this.1, this.2.1⟩
+    | false =>
+      have := raise_keeps_builders st.conts true { st.vm with regs := st.vm.regs + pre + 1 + args }
+      exact ⟨this.1, this.2.1⟩
 
 theorem step_builders_of_not_builder_event (ev : Ev) (st : St)
     (h : builderFree [ev] = true) :
@@ -376,14 +455,8 @@ theorem step_builders_of_not_builder_event (ev : Ev) (st : St)
   | seqEnd => simp [builderFree] at h
   | strStart => simp [builderFree] at h
   | strEnd => simp [builderFree] at h
-  | enter pre args c =>
-    cases c with
-    | koto a => simp [step, enter, callKoto, pushFrame]
-    | native => simp [step, enter]
-    | fail =>
-      have := raise_keeps_builders st.conts true
-        { st.vm with regs := st.vm.regs + pre + 1 + args }
-      exact ⟨this.1, this.2.1⟩
+  | enter pre args c => exact enterWith_builders true pre args c st
+  | enterOp pre args c => exact enterWith_builders false pre args c st
   | enterDirect pre ok =>
     cases ok with
     | true => simp [step, enterDirect, truncate]
@@ -465,8 +538,13 @@ theorem step_builders_of_not_builder_event (ev : Ev) (st : St)
               cases hs : st.vm.stack <;> simp [nativeOk, hs, truncate]
             cases host <;> simp [truncate, hn]
           | false =>
-            have := raise_keeps_builders ks true st.vm
-            simpa using ⟨this.1, this.2.1⟩
+            cases host with
+            | none =>
+              have := raise_keeps_builders ks true st.vm
+              simpa using ⟨this.1, this.2.1⟩
+            | some rr =>
+              have := raise_keeps_builders ks true (if rr.2 then truncate rr.1 st.vm else st.vm)
+              cases hr2 : rr.2 <;> simp [hr2, truncate] at this <;> simpa [hr2] using ⟨this.1, this.2.1⟩
   | importEnd ok =>
     by_cases hin : inLoop st = true
     · simp [step, hin]
@@ -516,9 +594,9 @@ theorem entry_clean_partial (s : St) (pre args a : Nat) (evs : List Ev)
   refine ⟨by rw [h.1, hregs], by rw [h.2.1, hstack], by rw [h.2.2.1, hbase], by rw [h.2.2.2.1, hmin],
     ?_, ?_, h.2.2.2.2.1⟩
   · show (runUntil _ _ _).vm.seq = _
-    rw [hbu.1]; simp [enter, callKoto, pushFrame]
+    rw [hbu.1]; simp [enter, enterWith, callKoto, pushFrame]
   · show (runUntil _ _ _).vm.str = _
-    rw [hbu.2]; simp [enter, callKoto, pushFrame]
+    rw [hbu.2]; simp [enter, enterWith, callKoto, pushFrame]
 
 example : builderFree [.newFrame 4, .call 2 0, .newFrame 1, .raise true] = true ∧
     Exited init (runEntry 0 0 (.koto 0) [.newFrame 4, .call 2 0, .newFrame 1, .raise true] init) := by
@@ -544,5 +622,287 @@ theorem import_success_example :
        .ret, .importEnd true, .exportVal 3, .ret] init
     Exited init s' ∧ s'.vm.placeholders = [] ∧ s'.vm.cached = [7] ∧ s'.vm.exports = [1, 3] := by
   decide
+
+
+/-! ## Exports: completed `export` instructions remain, nothing else changes -/
+
+/-- The exports map of the module at the bottom of a continuation stack: `run_import` swaps the
+active exports map (`importing m saved` remembers the importer's), so the exports of the module
+below the pending conts `cs` are found by following the `saved` maps. With `cs = []` this is the
+active map. -/
+def levelExports : List Cont → List Nat → List Nat
+  | [], ex => ex
+  | .importing _ saved :: cs, _ => levelExports cs saved
+  | .loop _ :: cs, ex => levelExports cs ex
+  | .native _ _ :: cs, ex => levelExports cs ex
+
+/-- The exports map of the outermost module (what the host sees once everything has returned). -/
+def rootExports (st : St) : List Nat := levelExports st.conts st.vm.exports
+
+theorem levelExports_snoc (k : Nat) : ∀ (cs : List Cont) (ex : List Nat),
+    levelExports cs (ex ++ [k]) = levelExports cs ex ∨
+    levelExports cs (ex ++ [k]) = levelExports cs ex ++ [k] := by
+  intro cs
+  induction cs with
+  | nil => intro ex; exact Or.inr rfl
+  | cons c cs ih =>
+    intro ex
+    cases c with
+    | loop x => simpa [levelExports] using ih ex
+    | native a b => simpa [levelExports] using ih ex
+    | importing m saved => exact Or.inl (by simp [levelExports])
+
+/-- Unwinding does not touch any module's exports, at any import depth. -/
+theorem raiseGo_rootExports : ∀ (conts : List Cont) (c : Bool) (vm : VM),
+    rootExports (raiseGo conts c vm) = levelExports conts vm.exports := by
+  intro conts
+  induction conts with
+  | nil => intro c vm; simp [raiseGo, rootExports]
+  | cons k rest ih =>
+    intro c vm
+    cases k with
+    | native a b => simp [raiseGo, rootExports]
+    | importing a b => simp [raiseGo, rootExports]
+    | loop x =>
+      have hu := unwindGo_builders c vm.stack vm
+      have hune : unwind c vm = unwindGo c vm.stack vm := rfl
+      rcases hres : unwindGo c vm.stack vm with ⟨vm1, r⟩
+      rw [hres] at hu
+      simp only [] at hu
+      cases r with
+      | some cr =>
+        rw [raiseGo_loop_some x rest c vm vm1 cr (by rw [hune, hres])]
+        simp [rootExports, levelExports, hu.2.2]
+      | none =>
+        have hx := exitErr_builders x vm1
+        cases raiseGo_loop_none x rest c vm vm1 (by rw [hune, hres]) with
+        | inl h => rw [h, ih true (exitErr x vm1), hx.2.2, hu.2.2]; simp [levelExports]
+        | inr h => rw [h]; simp [rootExports, levelExports, hx.2.2, hu.2.2]
+
+theorem enterWith_rootExports (t : Bool) (pre args : Nat) (c : Callee) (st : St) :
+    rootExports (enterWith t pre args c st) = rootExports st := by
+  cases c with
+  | koto a => simp [enterWith, rootExports, levelExports, callKoto, pushFrame]
+  | native => simp [enterWith, rootExports, levelExports]
+  | fail =>
+    cases t with
+    | true => simp only [enterWith, if_true]; rw [raiseGo_rootExports]; simp [rootExports, truncate]
+    | false =>
+      simp only [enterWith, Bool.false_eq_true, if_false]; rw [raiseGo_rootExports]; simp [rootExports]
+
+/-- One event changes the outermost module's exports only if it is a completed `export`
+instruction of that module, and then by appending its key. In particular no failure — thrown
+value, runtime error, timeout, failing import, failing nested entry — removes or adds anything. -/
+theorem step_rootExports (ev : Ev) (st : St) :
+    rootExports (step ev st) = rootExports st ∨
+    ∃ k, ev = .exportVal k ∧ rootExports (step ev st) = rootExports st ++ [k] := by
+  cases ev with
+  | enter pre args c => exact Or.inl (enterWith_rootExports true pre args c st)
+  | enterOp pre args c => exact Or.inl (enterWith_rootExports false pre args c st)
+  | enterDirect pre ok =>
+    left
+    cases ok with
+    | true => simp [step, enterDirect, rootExports, truncate]
+    | false =>
+      simp only [step, enterDirect, Bool.false_eq_true, if_false]; rw [raiseGo_rootExports]
+      simp [rootExports]
+  | nested a b =>
+    left
+    by_cases hfb : st.vm.regs - st.vm.base > 255
+    · simp only [step, nested, hfb, if_true, raise]; rw [raiseGo_rootExports]; rfl
+    · simp [step, nested, hfb, rootExports, levelExports, callKoto, pushFrame]
+  | newFrame n =>
+    left
+    by_cases hin : inLoop st = true
+    · cases hs : st.vm.stack <;> simp [step, hin, modTop, hs, rootExports]
+    · simp [step, hin]
+  | tryStart r ip =>
+    left
+    by_cases hin : inLoop st = true
+    · cases hs : st.vm.stack <;> simp [step, hin, modTop, hs, rootExports]
+    · simp [step, hin]
+  | tryEnd =>
+    left
+    by_cases hin : inLoop st = true
+    · cases hs : st.vm.stack <;> simp [step, hin, modTop, hs, rootExports]
+    · simp [step, hin]
+  | call fb a =>
+    left
+    by_cases hin : inLoop st = true
+    · simp [step, hin, callKoto, pushFrame, rootExports]
+    · simp [step, hin]
+  | callNative fb =>
+    left
+    by_cases hin : inLoop st = true <;> simp [step, hin, rootExports, levelExports]
+  | seqStart => left; by_cases hin : inLoop st = true <;> simp [step, hin, rootExports]
+  | strStart => left; by_cases hin : inLoop st = true <;> simp [step, hin, rootExports]
+  | seqEnd =>
+    left
+    by_cases hin : inLoop st = true
+    · by_cases hz : st.vm.seq = 0
+      · simp only [step, hin, if_true, hz, raise]; rw [raiseGo_rootExports]; rfl
+      · simp [step, hin, hz, rootExports]
+    · simp [step, hin]
+  | strEnd =>
+    left
+    by_cases hin : inLoop st = true
+    · by_cases hz : st.vm.str = 0
+      · simp only [step, hin, if_true, hz, raise]; rw [raiseGo_rootExports]; rfl
+      · simp [step, hin, hz, rootExports]
+    · simp [step, hin]
+  | raise c =>
+    left
+    by_cases hin : inLoop st = true
+    · simp only [step, hin, if_true, raise]; rw [raiseGo_rootExports]; rfl
+    · simp [step, hin]
+  | exportVal k =>
+    by_cases hin : inLoop st = true
+    · by_cases hk : k ∈ st.vm.exports
+      · left; simp [step, hin, hk, rootExports]
+      · cases levelExports_snoc k st.conts st.vm.exports with
+        | inl h => left; simp [step, hin, hk, rootExports, h]
+        | inr h => right; exact ⟨k, rfl, by simp [step, hin, hk, rootExports, h]⟩
+    · left; simp [step, hin]
+  | importBegin m =>
+    left
+    by_cases hin : inLoop st = true
+    · by_cases hm : m ∈ st.vm.placeholders
+      · simp only [step, hin, if_true, hm, raise]; rw [raiseGo_rootExports]; rfl
+      · by_cases hcd : m ∈ st.vm.cached <;> simp [step, hin, hm, hcd, rootExports, levelExports]
+    · simp [step, hin]
+  | ret =>
+    left
+    by_cases hin : inLoop st = true
+    · simp only [step, hin, if_true]
+      cases hs : st.vm.stack with
+      | nil => simp
+      | cons f rest =>
+        cases hcs : st.conts with
+        | nil => simp
+        | cons k ks =>
+          cases k with
+          | native a b => simp
+          | importing a b => simp
+          | loop x =>
+            have hp := popTo_fields f rest st.vm
+            rcases hpt : popTo f rest st.vm with ⟨vm1, b⟩
+            rw [hpt] at hp
+            simp only [] at hp
+            cases b with
+            | false => simp [hpt, rootExports, hcs, hp]
+            | true => cases x <;> simp [hpt, rootExports, levelExports, hcs, truncate, hp]
+    · simp [step, hin]
+  | nativeRet ok =>
+    left
+    by_cases hin : inLoop st = true
+    · simp [step, hin]
+    · simp only [step, hin, Bool.false_eq_true, if_false]
+      cases hcs : st.conts with
+      | nil => simp
+      | cons k ks =>
+        cases k with
+        | loop x => simp
+        | importing a b => simp
+        | native fb host =>
+          have hn : (nativeOk fb st.vm).exports = st.vm.exports := by
+            cases hs : st.vm.stack <;> simp [nativeOk, hs, truncate]
+          cases ok with
+          | true => cases host <;> simp [rootExports, levelExports, hcs, truncate, hn]
+          | false =>
+            cases host with
+            | none =>
+              simp only [Bool.false_eq_true, if_false]; rw [raiseGo_rootExports]
+              simp [rootExports, levelExports, hcs]
+            | some rr =>
+              simp only [Bool.false_eq_true, if_false]; rw [raiseGo_rootExports]
+              cases hr2 : rr.2 <;> simp [rootExports, levelExports, hcs, truncate]
+  | importEnd ok =>
+    left
+    by_cases hin : inLoop st = true
+    · simp [step, hin]
+    · simp only [step, hin, Bool.false_eq_true, if_false]
+      cases hcs : st.conts with
+      | nil => simp
+      | cons k ks =>
+        cases k with
+        | loop x => simp
+        | native a b => simp
+        | importing m saved =>
+          cases ok with
+          | true => simp [rootExports, levelExports, hcs]
+          | false =>
+            simp only [Bool.false_eq_true, if_false]; rw [raiseGo_rootExports]
+            simp [rootExports, levelExports, hcs]
+
+/-- **exports_effects**. For every execution (any events, any failures, any nesting of imports and
+re-entries): the outermost module's exports afterwards are its exports before, in the same order,
+followed by keys of `export` instructions that occur in the execution — completed exports remain,
+nothing is lost, nothing else appears. -/
+theorem exports_effects : ∀ (evs : List Ev) (st : St),
+    ∃ added, rootExports (run evs st) = rootExports st ++ added ∧
+      ∀ k ∈ added, Ev.exportVal k ∈ evs := by
+  intro evs
+  induction evs with
+  | nil => intro st; exact ⟨[], by simp [run], by simp⟩
+  | cons ev rest ih =>
+    intro st
+    obtain ⟨added, h1, h2⟩ := ih (step ev st)
+    have hrun : run (ev :: rest) st = run rest (step ev st) := by simp [run]
+    rw [hrun, h1]
+    cases step_rootExports ev st with
+    | inl h => exact ⟨added, by rw [h], fun k hk => List.mem_cons_of_mem _ (h2 k hk)⟩
+    | inr h =>
+      obtain ⟨k, hev, hk⟩ := h
+      refine ⟨k :: added, by rw [hk]; simp, ?_⟩
+      intro k' hk'
+      cases List.mem_cons.mp hk' with
+      | inl h' => rw [h', hev]; exact List.mem_cons_self
+      | inr h' => exact List.mem_cons_of_mem _ (h2 k' h')
+
+/-- The same for a host entry bracket (`runUntil` stops at the entry's return). -/
+theorem exports_effects_entry (d : Nat) : ∀ (evs : List Ev) (st : St),
+    ∃ added, rootExports (runUntil d evs st) = rootExports st ++ added ∧
+      ∀ k ∈ added, Ev.exportVal k ∈ evs := by
+  intro evs
+  induction evs with
+  | nil => intro st; exact ⟨[], by simp [runUntil], by simp⟩
+  | cons ev rest ih =>
+    intro st
+    simp only [runUntil]
+    split
+    · exact ⟨[], by simp, by simp⟩
+    · obtain ⟨added, h1, h2⟩ := ih (step ev st)
+      rw [h1]
+      cases step_rootExports ev st with
+      | inl h => exact ⟨added, by rw [h], fun k hk => List.mem_cons_of_mem _ (h2 k hk)⟩
+      | inr h =>
+        obtain ⟨k, hev, hk⟩ := h
+        refine ⟨k :: added, by rw [hk]; simp, ?_⟩
+        intro k' hk'
+        cases List.mem_cons.mp hk' with
+        | inl h' => rw [h', hev]; exact List.mem_cons_self
+        | inr h' => exact List.mem_cons_of_mem _ (h2 k' h')
+
+/-- Host-level reading: a `run` on an instance with no pending caller, whatever its outcome, ends
+with `exports = exports before ++ (keys of export instructions of the execution)`. -/
+theorem run_exports_effects (s : St) (evs : List Ev) (hconts : s.conts = [])
+    (hex : Exited s (runEntry 0 0 (.koto 0) evs s)) :
+    ∃ added, (runEntry 0 0 (.koto 0) evs s).vm.exports = s.vm.exports ++ added ∧
+      ∀ k ∈ added, Ev.exportVal k ∈ evs := by
+  obtain ⟨added, h1, h2⟩ := exports_effects_entry s.conts.length evs (enter 0 0 (.koto 0) s)
+  have h0 : rootExports (enter 0 0 (.koto 0) s) = rootExports s := enterWith_rootExports true 0 0 _ s
+  have hfin : (runEntry 0 0 (.koto 0) evs s).conts = [] := by
+    have : (runEntry 0 0 (.koto 0) evs s).conts.length ≤ 0 := by
+      simpa [Exited, hconts] using hex
+    exact List.eq_nil_of_length_eq_zero (by omega)
+  refine ⟨added, ?_, h2⟩
+  have hl : rootExports (runEntry 0 0 (.koto 0) evs s) = (runEntry 0 0 (.koto 0) evs s).vm.exports := by
+    simp [rootExports, hfin, levelExports]
+  have hr : rootExports s = s.vm.exports := by simp [rootExports, hconts, levelExports]
+  rw [← hl, ← hr, ← h0]
+  exact h1
+
+example : (runEntry 0 0 (.koto 0) [.newFrame 4, .exportVal 1, .exportVal 2, .call 2 0, .newFrame 1,
+    .raise true, .exportVal 3] init).vm.exports = [1, 2] := by decide
 
 end KotoVerif.C07
